@@ -268,7 +268,7 @@ Section DisjS.
         * intro pre. specialize (Hev' (pre ++ [k'])). rewrite app_length, Nat.add_1_r, <- !app_assoc in Hev'. cbn [app] in Hev'.
           eapply Ev_ext; [|exact (Ev_bind _ (fun g y => next_idxs C (cnext g) (map snd (idxs_of m0 suf (S (length pre)))) (pre ++ y :: suf)) _ _ Hev Hev')].
           intro g. cbn [idxs_of]. rewrite Z.eqb_refl. cbn [map snd next_idxs]. rewrite upd_nth_app.
-          destruct (next1 C (cnext g) (k, Some m0)); reflexivity.
+          unfold next1. cbn [fst]. destruct (cnext g k) as [[? ?]|]; reflexivity.
       + apply Z.eqb_neq in E.
         exists ((k, Some c) :: suf'). split.
         * cbn [map]. rewrite dropwhile_lt_head_ge by lia. constructor; assumption.
@@ -317,7 +317,7 @@ Section DisjS.
           (hd_res (at_least min es), kids', update_matches C kids' 0 []).
   Proof.
     induction n as [|n IH]; intros kids es Hn F;
-      pose proof (Forall2_KidOk_asc C R Hasc _ _ F) as Aes;
+      pose proof (Forall2_KidOk_asc C R _ _ F) as Aes;
       rewrite (um0 C kids); destruct (least kids) as [l|] eqn:El.
     1, 3:
       (pose proof (least_le C kids l El) as Hle;
@@ -377,5 +377,64 @@ Section DisjS.
       eapply Ev2_step with (Ch := fun g => next_idxs C (cnext g) (map snd ((l, j0) :: mrest)) kids)
         (G := fun g f kids' => dslice_loop C (cnext g) f min kids' (update_matches C kids' 0 [])); [|exact Hev1|exact Hev].
       intros g f. rewrite dslice_loop_S. rewrite (proj2 (Z.leb_gt _ _)) by (rewrite Hcnt; exact Efound). reflexivity.
+  Qed.
+
+  Lemma dslice_init_ok st p :
+    RDisjS st p ->
+    exists kids es, p = at_least (ds_min st) es /\ Forall2 KidOk kids es /\
+                    Ev (fun g => dslice_init C (cnext g) st) (kids, update_matches C kids 0 []).
+  Proof.
+    intros [es [-> H]]. unfold dslice_init. destruct (ds_init st).
+    - destruct H as [F Hm]. exists (ds_kids st), es. repeat split; auto. rewrite Hm. apply Ev_const.
+    - destruct (init_all_ok C cnext R Hasc Hnext _ _ H) as [kids' [F' Hev]].
+      exists kids', es. repeat split; auto.
+      destruct Hev as [N HN]. exists N. intros g Hg. rewrite (HN g Hg). reflexivity.
+  Qed.
+
+  Theorem disj_slice_cursor :
+    cursor_ok (dslice_st C) (fun f => dslice_next C (cnext f) f)
+              (fun f => dslice_adv C (cnext f) (cadv f) f) RDisjS.
+  Proof.
+    split; [exact RDisjS_asc|]. split.
+    - intros st p H. destruct (dslice_init_ok st p H) as [kids [es [-> [F Hev0]]]].
+      destruct (dslice_loop_ok (ds_min st) (tot es) kids es (le_n _) F) as [kids' [es' [F' [Hint Hev]]]].
+      exists {| ds_kids := kids'; ds_min := ds_min st; ds_match := update_matches C kids' 0 []; ds_init := true |}.
+      unfold spec_next. rewrite uncons_hd_tl. cbn [fst snd]. split.
+      + exists es'. cbn. split; [symmetry; exact Hint|]. split; [exact F'|reflexivity].
+      + apply Ev2_diag with (F := fun g f => dslice_next C (cnext g) f st). unfold dslice_next.
+        eapply Ev2_bind with (F := fun g => dslice_init C (cnext g) st)
+          (G := fun g f km => let '(kids, m) := km in
+                  match dslice_loop C (cnext g) f (ds_min st) kids m with
+                  | Some (r, kids', m') => Some (r, {| ds_kids := kids'; ds_min := ds_min st; ds_match := m'; ds_init := true |})
+                  | None => None end); [exact Hev0|].
+        apply (Ev2_map _ (fun x => let '(r, kids', m') := x in (r, {| ds_kids := kids'; ds_min := ds_min st; ds_match := m'; ds_init := true |}))) in Hev.
+        eapply Ev2_ext; [|exact Hev]. intros g f. cbn.
+        destruct (dslice_loop C (cnext g) f (ds_min st) kids (update_matches C kids 0 [])) as [[[r k'] m']|]; reflexivity.
+    - intros st p t H. destruct (dslice_init_ok st p H) as [kids [es [-> [F Hev0]]]].
+      pose proof (Forall2_KidOk_asc C R _ _ F) as Aes.
+      destruct (adv_lagging_ok C cadv R Hadv t kids es F) as [kids1 [F1 Hev1]].
+      destruct (dslice_loop_ok (ds_min st) (tot (map (dropwhile_lt t) es)) kids1 _ (le_n _) F1) as [kids' [es' [F' [Hint Hev]]]].
+      rewrite (at_least_map_dw (ds_min st) t es Aes) in Hint, Hev.
+      exists {| ds_kids := kids'; ds_min := ds_min st; ds_match := update_matches C kids' 0 []; ds_init := true |}.
+      unfold spec_advance. rewrite uncons_hd_tl. cbn [fst snd]. split.
+      + exists es'. cbn. split; [symmetry; exact Hint|]. split; [exact F'|reflexivity].
+      + apply Ev2_diag with (F := fun g f => dslice_adv C (cnext g) (cadv g) f st t). unfold dslice_adv.
+        eapply Ev2_bind with (F := fun g => dslice_init C (cnext g) st)
+          (G := fun g f km => let '(kids, _) := km in
+                  match adv_lagging C (cadv g) t kids with
+                  | None => None
+                  | Some kids1 =>
+                      match dslice_loop C (cnext g) f (ds_min st) kids1 (update_matches C kids1 0 []) with
+                      | Some (r, kids', m') => Some (r, {| ds_kids := kids'; ds_min := ds_min st; ds_match := m'; ds_init := true |})
+                      | None => None end end); [exact Hev0|].
+        cbn beta iota.
+        eapply Ev2_ext; [|eapply Ev2_bind with (F := fun g => adv_lagging C (cadv g) t kids)
+          (G := fun g f kids1 => match dslice_loop C (cnext g) f (ds_min st) kids1 (update_matches C kids1 0 []) with
+                                 | Some (r, kids', m') => Some (r, {| ds_kids := kids'; ds_min := ds_min st; ds_match := m'; ds_init := true |})
+                                 | None => None end); [exact Hev1|]].
+        * intros g f. cbn. destruct (adv_lagging C (cadv g) t kids); reflexivity.
+        * apply (Ev2_map _ (fun x => let '(r, kids', m') := x in (r, {| ds_kids := kids'; ds_min := ds_min st; ds_match := m'; ds_init := true |}))) in Hev.
+          eapply Ev2_ext; [|exact Hev]. intros g f. cbn.
+          destruct (dslice_loop C (cnext g) f (ds_min st) kids1 (update_matches C kids1 0 [])) as [[[r k'] m']|]; reflexivity.
   Qed.
 End DisjS.
